@@ -88,6 +88,12 @@ def gen_routes(work, pkgdir):
     return p, [r[0].strip() for r in routes]
 
 
+def go_list_dir(mod):
+    r = subprocess.run(["go", "list", "-m", "-f", "{{.Dir}}", mod], cwd=REPO, env=go_env(), stdout=subprocess.PIPE,
+                       stderr=subprocess.DEVNULL, text=True)
+    return r.stdout.strip()
+
+
 def build_harness(work, pkg="cmd/keymasterd", hdir="kmd", race=False, extra=None, name=None):
     """go test -c of <pkg> from REPO's working tree with the harness files overlaid."""
     pkgdir = os.path.join(REPO, pkg)
@@ -107,6 +113,27 @@ def build_harness(work, pkg="cmd/keymasterd", hdir="kmd", race=False, extra=None
     if not os.path.exists(modfile):
         shutil.copy(os.path.join(REPO, "go.mod"), modfile)
         shutil.copy(os.path.join(REPO, "go.sum"), work.path("go.sum"))
+    if pkg == "cmd/keymaster":
+        # the HID (hardware token) layer needs libudev headers that this sandbox lacks: in the SCRATCH go.mod the hid module
+        # is replaced by its own no-hardware variant (hid.go + hid_disabled.go of the same version); nothing of keymaster
+        # is replaced and /repo/go.mod is untouched
+        modfile = work.path("client", "go.mod")
+        if not os.path.exists(modfile):
+            os.makedirs(work.path("client"), exist_ok=True)
+            hid = go_list_dir("github.com/bearsh/hid")
+            stub = work.path("client", "hidstub")
+            os.makedirs(stub, exist_ok=True)
+            if not hid:
+                raise Inconclusive("github.com/bearsh/hid not in the module cache")
+            shutil.copy(os.path.join(hid, "hid.go"), stub)
+            dis = open(os.path.join(hid, "hid_disabled.go")).read()
+            dis = re.sub(r"(?m)^//go:build .*$", "// (build constraint removed: forced no-hardware variant)", dis, count=1)
+            open(os.path.join(stub, "hid_disabled.go"), "w").write(dis)
+            open(os.path.join(stub, "go.mod"), "w").write("module github.com/bearsh/hid\n\ngo 1.17\n")
+            gm = open(os.path.join(REPO, "go.mod")).read()
+            gm += "\nreplace github.com/bearsh/hid => %s\n" % stub
+            open(modfile, "w").write(gm)
+            shutil.copy(os.path.join(REPO, "go.sum"), work.path("client", "go.sum"))
     out = work.path((name or hdir) + (".race" if race else "") + ".test")
     cmd = ["go", "test", "-tags", "verif", "-overlay", ov, "-modfile", modfile, "-vet=off", "-c", "-o", out]
     if race:
